@@ -215,6 +215,26 @@ def brief(evs):
     return " ".join(out)
 
 
+def apalache_bonus(c):
+    """Inductive-invariant check of the key-level core (spec/L2LockInd.tla).  A bonus: recorded, never a verdict."""
+    import subprocess
+    wd = os.path.join(c.scratch, "apalache")
+    os.makedirs(wd, exist_ok=True)
+    shutil.copy(os.path.join(vlib.VERIF, "spec", "L2LockInd.tla"), wd)
+    out = {}
+    for name, args in (("init_implies_inv", ["--init=Init", "--inv=IndInv", "--length=0"]),
+                       ("inv_is_inductive", ["--init=IndInit", "--inv=IndInv", "--length=1"]),
+                       ("inv_implies_mutual_exclusion", ["--init=IndInit", "--inv=MutualExclusion", "--length=0"])):
+        try:
+            p = subprocess.run(["timeout", "400", "apalache-mc", "check", "--cinit=CInit", "--out-dir=" + os.path.join(wd, "out")] + args +
+                               ["L2LockInd.tla"], cwd=wd, stdout=subprocess.PIPE, stderr=subprocess.STDOUT, text=True)
+            m = re.search(r"The outcome is: (\w+)", p.stdout)
+            out[name] = m.group(1) if m else "no outcome (rc=%d)" % p.returncode
+        except Exception as e:          # tool missing etc.
+            out[name] = "not run: %s" % e
+    return out
+
+
 def run(c):
     cov = c.cov
     # ------------------------------------------------------------------ 1. design level: TLC runs start now, in the background
@@ -332,6 +352,8 @@ def _run(c, design, plan):
         if cfg not in cov["design_runs"]:
             design(cfg)
     cov["exhaustive"] = True
+    if not c.quick:
+        cov["apalache_bonus_L2LockInd"] = apalache_bonus(c)
     # ------------------------------------------------------------------ evidence
     cov["trace_verdicts"] = stats
     conforming = sum(s.get("conforming", 0) for s in stats.values())
